@@ -484,7 +484,8 @@ static int vector_grid(const life_t *lp, const struct demand *dp,
 
 /* create the kit's parameters: "use" in order of first use, "rev" in the
  * opposite order, "hi8": the entry used first is created ninth, the one
- * used second first, ... (handle numbers 8 apart used high before low) */
+ * used second first, ... (handle numbers 8 apart used high before low),
+ * "pad": in order of use after thirteen entries that stay unused */
 static void kit_create(life_t *lp)
 {
     int order[KIT_MAX], n = lp->kit_n;
@@ -493,6 +494,16 @@ static void kit_create(life_t *lp)
     if (lp->kit_made)
 	return;
     lp->kit_made = 1;
+    if (strcmp(lp->kitclass, "pad") == 0) {
+	/* the kit holds thirteen more entries than this calibration uses;
+	 * they come first, so the handles in use start at sixteen */
+	for (int i = 0; i < 13; ++i) {
+	    if (LIB(vnacal_make_scalar_parameter(lp->vcp, kdisc(key6(g_seed,
+				    g_case_key, 0x9AD, (uint64_t)i, 0, 0),
+				0.9))) < 0)
+		die("cannot create parameter:", vt_cb.last);
+	}
+    }
     if (strcmp(lp->kitclass, "rev") == 0) {
 	for (int i = 0; i < n; ++i)
 	    order[i] = n - 1 - i;
@@ -566,23 +577,46 @@ static void do_setf(life_t *lp, int valid)
     vt_end_line();
 }
 
+/* declared (= actual) noise at reference frequency index refk: constant
+ * for noise form 1, varying over frequency for forms 2 and 3 */
+static double sig_nf(const life_t *lp, int refk)
+{
+    return lp->sigma_nf * lp->gain * (lp->noise >= 2 ? 1.0 + 0.5 * refk : 1.0);
+}
+
+static double sig_tr(const life_t *lp, int refk)
+{
+    return lp->sigma_tr * (lp->noise >= 2 ? 1.0 + refk : 1.0);
+}
+
 /* measurement-error model: the declared noise is the noise the harness
- * adds to every reading.  The p-value limit is made negligible (the clause
- * under test is about the order of additions, not about rejection rates)
- * and the iteration tolerance tight, so that both orders converge to the
- * same weighted solution. */
+ * adds to every reading.  Three documented ways of giving it:
+ *   1  frequencies == 1: one value for all frequencies
+ *   2  frequency_vector == NULL, frequencies == calibration frequencies
+ *   3  own frequency vector (here: the calibration points, so that the
+ *      interpolant is at its knots)
+ * The p-value limit is made negligible (the clauses under test are about
+ * the order of additions and about joint versus separate solves, not about
+ * rejection rates) and the iteration tolerance tight, so that equivalent
+ * problems converge to the same weighted solution. */
 static void do_setmerr(life_t *lp)
 {
-    double nfv[1], trv[1];
-    int rc, r2, r3;
+    double nfv[MAXF], trv[MAXF];
+    int rc, r2, r3, form = lp->noise, n;
 
     if (!lp->alive)
 	return;
-    nfv[0] = lp->sigma_nf * lp->gain;
-    trv[0] = lp->sigma_tr;
+    for (int f = 0; f < lp->nf; ++f) {
+	nfv[f] = sig_nf(lp, lp->fref[f]);
+	trv[f] = sig_tr(lp, lp->fref[f]);
+    }
+    if (form >= 3 && lp->nf < 2)
+	form = 2;
+    n = form == 1 ? 1 : lp->nf;
     vt_cb_reset();
-    rc = CALL(vnacal_new_set_m_error(lp->vnp, NULL, 1, nfv, trv));
-    vt_put("{\"e\":\"SetMErr\",\"noisy\":1");
+    rc = CALL(vnacal_new_set_m_error(lp->vnp, form == 3 ? lp->freq : NULL, n,
+		nfv, trv));
+    vt_put("{\"e\":\"SetMErr\",\"noisy\":1,\"form\":%d,\"n\":%d", form, n);
     put_ret(rc == 0);
     r2 = LIB(vnacal_new_set_pvalue_limit(lp->vnp, 1.0e-200));
     r3 = LIB(vnacal_new_set_et_tolerance(lp->vnp, 1.0e-10));
@@ -704,6 +738,9 @@ static void make_ab(life_t *lp, int mr, int mc, const double complex *m,
 	a[i] *= scale;
 }
 
+static double sig_nf(const life_t *lp, int refk);
+static double sig_tr(const life_t *lp, int refk);
+
 /* the noise of one reading: noise floor plus a part proportional to the
  * reading, the same whenever the same physical reading is entered */
 static double complex reading_noise(const life_t *lp, int sid, int a0, int b0,
@@ -715,8 +752,8 @@ static double complex reading_noise(const life_t *lp, int sid, int a0, int b0,
 	return 0.0;
     vt_seed(&rng, key6(g_seed, g_case_key, 0x4015E, (uint64_t)sid,
 		(uint64_t)(a0 * 16 + b0), (uint64_t)refk));
-    return ets_cnormal(&rng, lp->sigma_nf * lp->gain) +
-	cabs(m) * ets_cnormal(&rng, lp->sigma_tr);
+    return ets_cnormal(&rng, sig_nf(lp, refk)) +
+	cabs(m) * ets_cnormal(&rng, sig_tr(lp, refk));
 }
 
 static int cmp_int(const void *a, const void *b)
@@ -1223,10 +1260,12 @@ static void do_apply(life_t *lp, const step_t *sp)
     if (rc == 0) {
 	double tau = tolerance(lp);
 
-	if (vnadata_get_frequencies(vdp) != nf ||
-		vnadata_get_rows(vdp) != P || vnadata_get_columns(vdp) != P)
+	int dims_ok = vnadata_get_frequencies(vdp) == nf &&
+	    vnadata_get_rows(vdp) == P && vnadata_get_columns(vdp) == P;
+
+	if (!dims_ok)
 	    recovered = 0;
-	for (int f = 0; f < nf && recovered; ++f)
+	for (int f = 0; f < nf && dims_ok; ++f)
 	    for (int a = 0; a < P; ++a)
 		for (int b = 0; b < P; ++b) {
 		    double complex v = vnadata_get_cell(vdp, f, a, b);
